@@ -21,8 +21,11 @@ def var_h(n, h0, seedvals, amp=0.3):
     """per-particle smoothing lengths h0*(1 +- amp) (multi-resolution
     input: tree algorithms prune with per-node maxima of h)"""
     k = len(seedvals)
-    return h0 * (1.0 + amp * 2.0 * np.array(
-        [seedvals[(7 * i + 2) % k] for i in range(n)]))
+    v = np.array([seedvals[(7 * i + 2) % k] for i in range(n)])
+    if 'hamp' in CASE:
+        # h0 .. h0*(1 + 2*hamp): ratios of 2 and more inside one array
+        return h0 * (1.0 + CASE['hamp'] * (2.0 * v + 1.0))
+    return h0 * (1.0 + amp * 2.0 * v)
 
 
 def lattice(n, dx, jit, seedvals, x0=0.0, y0=0.0):
